@@ -18,12 +18,13 @@ func vfRingCaps() []int {
 	return []int{8, 9, 16}
 }
 
-// the iterator harnesses fork once per visited element; quick keeps them to 8 and 9
+// the iterator harnesses fork once per visited element and their queries are the heaviest of
+// this property (nested if-then-else over every slot): quick keeps them to capacity 8
 func vfRingCapsIter() []int {
 	if vfTier() > 0 {
 		return vfRingCaps()
 	}
-	return []int{8, 9}
+	return []int{8}
 }
 
 // vfRingLenSpec: specification of the length, written independently of Len().
@@ -215,7 +216,7 @@ func vfH_C20_foreach_reverse() {
 	vfReach("pre")
 	calls := 0
 	r.ForEachReverse(func(p *uint32) bool {
-		vfAssert("foreachrev/order", *p == pre[(n-1-calls+c)%c])
+		vfAssert("foreachrev/order", *p == pre[n-1-calls])
 		*p = *p ^ 0x5a5a5a5a
 		calls++
 		return calls != stop
